@@ -188,8 +188,11 @@ class World:
                     tot = sum(a["ram"] for a in asg)
                     if tot > self.free_ram[k] and not near(tot, self.free_ram[k], 1e-12):
                         return ("oversell-ram", k, ("C03",))
-                    if near(tot, self.free_ram[k], 1e-12) and len(asg) > 1 or (tot > self.free_ram[k]):
-                        # the sum is within float rounding of the free amount: either verdict is fine
+                    if (near(tot, self.free_ram[k], 1e-12) and not (tot == self.free_ram[k] and float(tot).is_integer())) \
+                            or (tot > self.free_ram[k]):
+                        # the request is within float rounding of the free amount (a ledger kept by += / -= of
+                        # fractional sizes need not equal one that is recomputed or snapped to capacity when the
+                        # pool is idle): either verdict is fine.  Whole numbers are exact: no freedom there.
                         self.soft_reject = ("oversell-ram", k, ("C03",))
                 for a in asg:
                     if not self.multi and len(a["ops"]) != 1:
@@ -378,7 +381,10 @@ class World:
             for s in [s for s in sus_cmds if s["pool"] == k]:
                 mc = self.find_mc(s["c"])
                 mc.status = "suspending"
-                mc.sus_total = self.choose(suspend_tick_candidates(mc.ram, self.tps))
+                _cands = suspend_tick_candidates(mc.ram, self.tps)
+                if len(_cands) > 1:
+                    self.ev("write_out_length_on_float_boundary")      # floor(ram/20*tps) within rounding of an integer
+                mc.sus_total = self.choose(_cands)
                 mc.sus_left = mc.sus_total
                 self.active[k].remove(mc)
                 self.suspending[k].append(mc)
